@@ -818,6 +818,20 @@ def directed_faultfree():
             lines += [[b"a", b"out"], [b"a", b"b", b"out"]]
         for ln in lines:
             out.append(annotate(case_of(c, [b"prog"] + ln), ["ok"], "none"))
+    # an exclusive flag, or a flag that conflicts with them, WAIVES required positionals -- all of them, also when there
+    # are two or more (seeded change seed2/C10-1: the 'preceding positionals' display loop re-added waived ones)
+    for how in ("exclusive", "conflicts"):
+        lst = {"id": b"list", "long": b"list", "action": "settrue", "flags": {"exclusive"} if how == "exclusive" else set()}
+        if how == "conflicts":
+            lst["conflicts"] = [b"src", b"dst", b"extra"]
+        c = {"name": b"p", "about": b"A:p", "groups": [], "aliases": [], "settings": [], "subs": [],
+             "args": [lst, {"id": b"v", "short": "v", "action": "count", "flags": set()},
+                      pos(b"src", flags={"required"}), pos(b"dst", flags={"required"}), pos(b"extra", flags={"required"})]}
+        lines = [[b"--list"], [b"a", b"b", b"c"], [b"-v", b"a", b"b", b"c"]]
+        if how == "conflicts":
+            lines.append([b"--list", b"-v"])
+        for ln in lines:
+            out.append(annotate(case_of(c, [b"prog"] + ln), ["ok"], "none"))
     c = {"name": b"p", "about": b"A:p", "groups": [], "aliases": [], "settings": ["allow_missing_positional"],
          "args": [pos(b"profile"), pos(b"target", flags={"required"})], "subs": [sub(b"run")]}
     for ln in ([b"web", b"run"], [b"web"], [b"prod", b"web", b"run"], [b"prod", b"web"], [b"web", b"run", b"--force"]):
